@@ -1,5 +1,5 @@
 import Ecal.Lemmas.EvalHeap
-import Ecal.Lemmas.ContainerPaths
+import Ecal.Lemmas.EvalPaths
 import Ecal.Lemmas.EvalFrame
 import Ecal.Lemmas.EvalLists
 import Ecal.Lemmas.EvalNew
@@ -17,9 +17,9 @@ equations that tie the mutual evaluator to these functions.
 
 Proved: lookup_nearest, assign_nearest_or_local, let_local, inner_not_visible_outside, call_fresh_locals,
 closure_sees_definition_scope, call_does_not_write_enclosing_frames, args_missing_default_extra_ignored,
-prims_by_value_containers_by_ref, read_after_write (+ _list, _paths), len_add_del_model, add_insert_concat_model,
+prims_by_value_containers_by_ref, read_after_write (cell) and read_after_write_path (setValue / getValue), len_add_del_model, add_insert_concat_model,
 new_has_all_template_props (transitive), own_property_wins, method_this, init_once_with_args,
-init_once_with_args_and_supers, init_reads_super, addSuperClasses_no_fuel.  Hypotheses are listed with each theorem.
+init_once_with_args_and_supers, init_reads_super, addSuperClasses_cycle.  Hypotheses are listed with each theorem.
 -/
 namespace Ecal.Props.C05
 open Ecal.Ev Ecal.Obj
@@ -135,12 +135,14 @@ theorem namesOk_of_plain (params : List (Option Ecal.Parse.Node)) (h : PlainPara
 /-- A call changes no existing scope while it builds its frame: `this`, `super` and the parameters are written
     into the fresh, still parentless root scope, so they SHADOW and never overwrite variables of the same
     names in the enclosing frames (the declaration scope is linked only afterwards).  Holds for every
-    outcome, also when a default raises an error; hypothesis `hev`: evaluating a default expression itself
-    leaves scope `t` and the unreachable new frame alone (what the defaults and later the body assign is
-    covered by `assign_nearest_or_local`). -/
+    outcome, also when a default raises an error.  Hypothesis `hev`: evaluating the default expressions OF THIS
+    PARAMETER LIST preserves the invariant of the frame under construction (frame in bounds and parentless, only
+    allowed names in it, scope `t` as before) — it may do anything else; `_noDefaults` below needs no such
+    hypothesis, and the examples instantiate both forms on the real evaluator (`ev = eval f callerScope`). -/
 theorem call_does_not_write_enclosing_frames (ev : Ecal.Parse.Node → M Val) (fr : FuncRec)
     (params : List (Option Ecal.Parse.Node)) (args : List Val) (st st' : St) (r : Except Sig Nat) (t : Nat)
-    (ht : t < st.scopes.size) (hpl : PlainParams params) (hev : DefaultKeeps ev st.scopes.size t)
+    (ht : t < st.scopes.size) (hpl : PlainParams params)
+    (hev : DefaultPreserves ev params (FrameInv st st.scopes.size t (FrameNames params)))
     (h : runM (buildFrame ev fr params args) st = (r, st')) :
     st'.scope t = st.scope t :=
   (buildFrame_spec ev fr params args st st' r t (FrameNames params) ht (Or.inl rfl) (Or.inr (Or.inl rfl))
@@ -151,7 +153,8 @@ theorem call_does_not_write_enclosing_frames (ev : Ecal.Parse.Node → M Val) (f
     `this`, `super` and the parameters — no local of an earlier call of the same function survives. -/
 theorem call_fresh_locals (ev : Ecal.Parse.Node → M Val) (fr : FuncRec)
     (params : List (Option Ecal.Parse.Node)) (args : List Val) (st st' : St) (fvs t : Nat)
-    (ht : t < st.scopes.size) (hpl : PlainParams params) (hev : DefaultKeeps ev st.scopes.size t)
+    (ht : t < st.scopes.size) (hpl : PlainParams params)
+    (hev : DefaultPreserves ev params (FrameInv st st.scopes.size t (FrameNames params)))
     (h : runM (buildFrame ev fr params args) st = (.ok fvs, st')) :
     fvs = st.scopes.size ∧ fvs ≠ t ∧ fvs < st'.scopes.size ∧ ∀ w, st'.defines fvs w = true → FrameNames params w := by
   have := (buildFrame_spec ev fr params args st st' (.ok fvs) t (FrameNames params) ht (Or.inl rfl) (Or.inr (Or.inl rfl))
@@ -163,12 +166,90 @@ theorem call_fresh_locals (ev : Ecal.Parse.Node → M Val) (fr : FuncRec)
     final state) — the caller's scope is not on it unless the declaration scope's own chain contains it. -/
 theorem closure_sees_definition_scope (ev : Ecal.Parse.Node → M Val) (fr : FuncRec)
     (params : List (Option Ecal.Parse.Node)) (args : List Val) (st st' : St) (fvs t f : Nat)
-    (ht : t < st.scopes.size) (hpl : PlainParams params) (hev : DefaultKeeps ev st.scopes.size t)
+    (ht : t < st.scopes.size) (hpl : PlainParams params)
+    (hev : DefaultPreserves ev params (FrameInv st st.scopes.size t (FrameNames params)))
     (h : runM (buildFrame ev fr params args) st = (.ok fvs, st')) :
     (st'.scope fvs).parent = some fr.declScope ∧ st'.chain (f + 1) fvs = fvs :: st'.chain f fr.declScope := by
   have := (buildFrame_spec ev fr params args st st' (.ok fvs) t (FrameNames params) ht (Or.inl rfl) (Or.inr (Or.inl rfl))
     (namesOk_of_plain params hpl) hev h).2 fvs rfl
   exact ⟨this.linked, by simp [St.chain, this.linked]⟩
+
+/-- Parameter lists without defaults need no hypothesis about the evaluator at all: the default evaluator is never
+    called (`buildFrame_noPreset`), so the three theorems hold for EVERY `ev`, in particular for the one
+    `runFunction` passes. -/
+theorem call_frames_noDefaults (ev : Ecal.Parse.Node → M Val) (fr : FuncRec)
+    (params : List (Option Ecal.Parse.Node)) (args : List Val) (st st' : St) (r : Except Sig Nat) (t : Nat)
+    (ht : t < st.scopes.size) (hpl : PlainParams params) (hnp : NoPreset params)
+    (h : runM (buildFrame ev fr params args) st = (r, st')) :
+    st'.scope t = st.scope t ∧
+    ∀ fvs f, r = .ok fvs →
+      (fvs = st.scopes.size ∧ fvs ≠ t ∧ fvs < st'.scopes.size ∧ ∀ w, st'.defines fvs w = true → FrameNames params w) ∧
+      ((st'.scope fvs).parent = some fr.declScope ∧ st'.chain (f + 1) fvs = fvs :: st'.chain f fr.declScope) := by
+  rw [buildFrame_noPreset ev (fun _ => pure Val.null) fr params args hnp] at h
+  have hev := defaultPreserves_const params (FrameInv st st.scopes.size t (FrameNames params))
+  refine ⟨call_does_not_write_enclosing_frames _ fr params args st st' r t ht hpl hev h, ?_⟩
+  intro fvs f hr
+  subst hr
+  exact ⟨call_fresh_locals _ fr params args st st' fvs t ht hpl hev h,
+    closure_sees_definition_scope _ fr params args st st' fvs t f ht hpl hev h⟩
+
+/-! non-vacuity ON THE EVALUATOR: the default evaluator is the one `runFunction` passes (`eval fuel callerScope`),
+    the caller scope is the block scope 1 of `exSt`, the declaration scope the global scope 0 -/
+def nd (name : String) (val : List Nat) (children : List (Option Ecal.Parse.Node)) : Ecal.Parse.Node :=
+  Ecal.Parse.Node.mk name (some { id := 0, pos := 0, val := val, identifier := true, allowEscapes := false, prefixNl := 0, line := 1, col := 1 })
+    0 default default children []
+/-- parameter `a` -/
+def exParamA : Ecal.Parse.Node := nd "identifier" [97] []
+/-- parameter `b=5` -/
+def exParamB5 : Ecal.Parse.Node := nd "preset" [] [some (nd "identifier" [98] []), some (nd "number" [53] [])]
+
+theorem exParams_plain : PlainParams [some exParamA, some exParamB5] := by
+  intro p nm hp hn
+  simp only [List.mem_cons, Option.some.injEq, List.mem_nil_iff, or_false] at hp
+  rcases hp with e | e <;> subst e <;> (simp [nodeParamName, exParamA, exParamB5, nd, Ecal.Parse.Node.name, Ecal.Parse.Node.tok, Ecal.Parse.Node.children] at hn; subst hn; unfold PlainName; decide)
+
+def exFr : FuncRec := ⟨"f", default, 0, none, none⟩
+/-- `f(a)` called with one argument from scope 1, default evaluator = the real `eval` -/
+def exRun1 : Except Sig Nat × St := runM (buildFrame (fun d => eval 50 1 d) exFr [some exParamA] [.bool true]) exSt
+/-- `f(a, b=5)` called with one argument: the default IS evaluated, by the real `eval` -/
+def exRun2 : Except Sig Nat × St := runM (buildFrame (fun d => eval 50 1 d) exFr [some exParamA, some exParamB5] [.bool true]) exSt
+
+example : exRun1.1 = .ok 2 := rfl
+
+/-- no hypothesis on the evaluator: the caller's scope 1 and the global scope 0 are untouched, the frame hangs under
+    the declaration scope 0 -/
+example : exRun1.2.scope 0 = exSt.scope 0 ∧ exRun1.2.scope 1 = exSt.scope 1 ∧ (exRun1.2.scope 2).parent = some 0 := by
+  have hpl : PlainParams [some exParamA] := fun p nm hp hn => exParams_plain p nm (by simp at hp ⊢; exact Or.inl hp) hn
+  have hnp : NoPreset [some exParamA] := by intro p hp; simp at hp; subst hp; rfl
+  have h0 := call_frames_noDefaults (fun d => eval 50 1 d) exFr [some exParamA] [.bool true] exSt exRun1.2 exRun1.1 0 (by decide) hpl hnp rfl
+  have h1 := call_frames_noDefaults (fun d => eval 50 1 d) exFr [some exParamA] [.bool true] exSt exRun1.2 exRun1.1 1 (by decide) hpl hnp rfl
+  exact ⟨h0.1, h1.1, ((h0.2 2 0 rfl).2).1⟩
+
+/-- the real evaluator on the default expression `5`: a number literal changes no state -/
+theorem eval_five (s : St) : ∃ v, runM (eval 50 1 (nd "number" [53] [])) s = (.ok v, s) := by
+  rw [show (50 : Nat) = 49 + 1 from rfl]
+  unfold eval
+  simp [nd, Ecal.Parse.Node.name, tokOf, Ecal.Parse.Node.tok, numberOf]
+  exact ⟨_, rfl⟩
+
+/-- `hev` discharged for the real evaluator and the default `5` -/
+theorem exParams_hev (I : St → Prop) : DefaultPreserves (fun d => eval 50 1 d) [some exParamA, some exParamB5] I := by
+  intro p d hp hd s r s1 hI hr
+  simp only [List.mem_cons, Option.some.injEq, List.mem_nil_iff, or_false] at hp
+  rcases hp with e | e <;> subst e
+  · simp [exParamA, nd, Ecal.Parse.Node.children] at hd
+  · have hd' : d = nd "number" [53] [] := by
+      simp [exParamB5, nd, Ecal.Parse.Node.children] at hd; exact hd.symm
+    subst hd'
+    obtain ⟨v, hv⟩ := eval_five s
+    rw [hv] at hr
+    injection hr with _ h2; rw [← h2]; exact hI
+
+example : exRun2.2.scope 1 = exSt.scope 1 ∧ exRun2.2.scope 0 = exSt.scope 0 :=
+  ⟨call_does_not_write_enclosing_frames (fun d => eval 50 1 d) exFr _ [.bool true] exSt exRun2.2 exRun2.1 1 (by decide) exParams_plain
+      (exParams_hev _) rfl,
+   call_does_not_write_enclosing_frames (fun d => eval 50 1 d) exFr _ [.bool true] exSt exRun2.2 exRun2.1 0 (by decide) exParams_plain
+      (exParams_hev _) rfl⟩
 
 /-- non-vacuity: a method frame (`this` bound, no parameters) built over the example state -/
 example : ∃ fvs st', runM (buildFrame (fun _ => pure Val.null) ⟨"m", default, 1, some (.map 0), none⟩ [] []) exSt = (.ok fvs, st') :=
@@ -218,19 +299,39 @@ theorem args_missing_default_extra_ignored (ev : Ecal.Parse.Node → M Val) (fvs
         simp only [bindParamNodes]
         rw [hstep q i (by omega), ih (i + 1) (by omega)]
 
-/-- Numbers, strings, booleans are values; a list or a map is a reference to a heap cell.  Writing the map
-    cell `r` (through whatever variable or path led to it) is seen by every holder of `.map r`: after
-    `mapStore` under the key of segment `fld`, reading segment `fld` of cell `r` gives `x` — while a plain
-    assignment `b := x` only replaces the variable (see `assign_touches_one_scope`). -/
-theorem prims_by_value_containers_by_ref (st : St) (r : Nat) (fld : List Nat) (x : Val) (hr : r < st.maps.size)
-    (hnum : ∀ i, atoi fld = some i → keyEq (.num (Float.ofInt i)) (.num (Float.ofInt i)) = true) :
-    let st' : St := { st with maps := st.maps.setIfInBounds r (mapStore (st.maps.getD r []) (fieldKey (st.maps.getD r []) fld) x) }
-    mapFieldLookup (st'.maps.getD r []) fld = some x := by
-  intro st'
-  have : st'.maps.getD r [] = mapStore (st.maps.getD r []) (fieldKey (st.maps.getD r []) fld) x := by
-    simp [st', hr]
-  rw [this]
-  exact mapField_read_after_write _ fld x hnum
+/-- Numbers, strings, booleans are values, lists and maps references.  BY REFERENCE: a successful write through one
+    name into a map or list cell is read through ANY other name (another variable, from another scope — e.g. a
+    parameter and the caller's variable — or another path) that reaches the same cell with the same last segment.
+    BY VALUE: a value of the other kinds refers to no heap cell (`cellOf = none` — there is nothing to share), and a
+    plain assignment `b := x` replaces only the variable in one scope and leaves the heap alone
+    (`assign_nearest_or_local`, `assign_touches_one_scope`). -/
+theorem prims_by_value_containers_by_ref :
+    (∀ (sc : Nat) (name v0 : List Nat) (pre : List (List Nat)) (last : List Nat) (x c cont : Val) (st st' : St)
+      (sc2 : Nat) (name2 v2 : List Nat) (pre2 : List (List Nat)) (c2 : Val),
+      splitDots name2 = v2 :: (pre2 ++ [last]) → pre2.length < 10000 →
+      runM (lookupVar sc2 (bytesToString v2)) st = (.ok (some c2), st) →
+      (∀ w, cellOf cont = some w → StepsAvoid st w pre2 c2 cont) →
+      splitDots name = v0 :: (pre ++ [last]) →
+      runM (lookupVar sc (bytesToString v0)) st = (.ok (some c), st) →
+      runM (setValue sc name x) st = (.ok (), st') →
+      ((∃ r, cont = .map r ∧ r < st.maps.size ∧ StepsAvoid st (true, r) pre c cont ∧
+          ∀ i, atoi last = some i → keyEq (.num (Float.ofInt i)) (.num (Float.ofInt i)) = true) ∨
+       (∃ r l, cont = .list r l ∧ r < st.lists.size ∧ l ≤ (st.backing r).length ∧ StepsAvoid st (false, r) pre c cont)) →
+      runM (getValue sc2 name2) st' = (.ok (x, isSet x), st')) ∧
+    (∀ b f s, cellOf .null = none ∧ cellOf (.bool b) = none ∧ cellOf (.num f) = none ∧ cellOf (.str s) = none) ∧
+    (∀ (st : St) (sc : Nat) (v : String) (x : Val), (st.withVar sc v x).lists = st.lists ∧ (st.withVar sc v x).maps = st.maps) :=
+  ⟨fun sc name v0 pre last x c cont st st' sc2 name2 v2 pre2 c2 hn2 hlen2 hv2 hav2 hn hv hset hcell =>
+      setValue_getValue_alias sc name v0 pre last x c cont st st' sc2 name2 v2 pre2 c2 hn2 hlen2 hv2 hav2 hn hv hset hcell,
+   fun _ _ _ => ⟨rfl, rfl, rfl, rfl⟩,
+   fun st sc v x => ⟨(withVar_heap st sc v x).1, (withVar_heap st sc v x).2.1⟩⟩
+
+/-- non-vacuity: `a` and `b` both hold map 0; `b.k := true` is read through `a.k` -/
+def exAlias : St := { scopes := #[⟨"g", none, [], [("a", .map 0), ("b", .map 0)]⟩], maps := #[[]] }
+def exAlias' : St := (runM (setValue 0 [98, 46, 107] (.bool true)) exAlias).2
+example : runM (getValue 0 [97, 46, 107]) exAlias' = (.ok (.bool true, true), exAlias') :=
+  prims_by_value_containers_by_ref.1 0 [98, 46, 107] [98] [] [107] (.bool true) (.map 0) (.map 0) exAlias exAlias' 0 [97, 46, 107] [97] [] (.map 0)
+    (by decide) (by decide) rfl (fun w _ => StepsAvoid.nil _) (by decide) rfl rfl
+    (Or.inl ⟨0, rfl, by decide, StepsAvoid.nil _, by intro i h; simp [atoi] at h⟩)
 
 /-- After `c[k] := v` / `c.k := v` on a map the same segment reads `v`: for string keys, and for NUMBER keys —
     `fieldKey` takes an existing number key (the repair of 5e0a7a5), otherwise the string form, and the read
@@ -244,9 +345,31 @@ theorem read_after_write (kvs : List (Val × Val)) (fld : List Nat) (x : Val)
 example : mapFieldLookup (mapStore [] (fieldKey [] [107]) (.bool true)) [107] = some (.bool true) :=
   read_after_write [] [107] (.bool true) (by intro i h; simp [atoi] at h)
 
-/-- list cells: a write at a valid index is read back at that index -/
-theorem read_after_write_list (b : List Val) (i : Nat) (x : Val) (h : i < b.length) : (b.set i x)[i]? = some x := by
-  simp [h]
+/-- Clause "after a successful `c[k] := v` / `c.k := v`, reading `c[k]` yields `v`" on `setValue` / `getValue`
+    THEMSELVES, any nesting (`containerWalk` on the write side and `containerGet` on the read side reach the same
+    cell; `fieldKey` is the key `setValue` writes — `setValue_path`; negative list indices through `listIdx`): the
+    same dotted name read after a successful write yields the written value.  Hypotheses: the container reached is
+    an existing map or list cell (slice with len ≤ capacity), the walk does not pass through the very cell that is
+    written (no cycle), and for a numeric last segment on a map `==` is reflexive on that number (not NaN). -/
+theorem read_after_write_path (sc : Nat) (name v0 : List Nat) (pre : List (List Nat)) (last : List Nat) (x c cont : Val)
+    (st st' : St) (hn : splitDots name = v0 :: (pre ++ [last])) (hlen : pre.length < 10000)
+    (hv : runM (lookupVar sc (bytesToString v0)) st = (.ok (some c), st))
+    (hset : runM (setValue sc name x) st = (.ok (), st'))
+    (hcell : (∃ r, cont = .map r ∧ r < st.maps.size ∧ StepsAvoid st (true, r) pre c cont ∧
+               ∀ i, atoi last = some i → keyEq (.num (Float.ofInt i)) (.num (Float.ofInt i)) = true) ∨
+             (∃ r l, cont = .list r l ∧ r < st.lists.size ∧ l ≤ (st.backing r).length ∧ StepsAvoid st (false, r) pre c cont)) :
+    runM (getValue sc name) st' = (.ok (x, isSet x), st') :=
+  setValue_getValue sc name v0 pre last x c cont st st' hn hlen hv hset hcell
+
+/-- non-vacuity: `a := {"k": [null, null]}`, then `a.k[-1] := true` (name `a.k.-1`) is read back -/
+def exHeap : St :=
+  { scopes := #[⟨"g", none, [], [("a", .map 0)]⟩], maps := #[[(.str [107], .list 1 2)]], lists := #[[], [.null, .null]] }
+example : ∃ st', runM (setValue 0 [97, 46, 107, 46, 45, 49] (.bool true)) exHeap = (.ok (), st') ∧
+    runM (getValue 0 [97, 46, 107, 46, 45, 49]) st' = (.ok (.bool true, true), st') := by
+  refine ⟨_, rfl, ?_⟩
+  refine read_after_write_path 0 [97, 46, 107, 46, 45, 49] [97] [[107]] [45, 49] (.bool true) (.map 0) (.list 1 2) exHeap _
+    (by decide) (by decide) rfl rfl (Or.inr ⟨1, 2, rfl, by decide, by decide, ?_⟩)
+  exact StepsAvoid.cons [107] [] (.map 0) (.list 1 2) (.list 1 2) (by decide) rfl (StepsAvoid.nil _)
 
 /-- `runBuiltin` (inside the mutual block) answers len / add / del / concat / new with the functions the
     theorems below are about. -/
@@ -297,18 +420,22 @@ theorem len_add_del_model :
 example : ∃ st', runM (appendVals 1 1 [.null]) { lists := #[[], [.null]] } = (.ok (.list 2 2), st') := ⟨_, rfl⟩
 example : ∃ st', runM (appendVals 1 1 [.null]) { lists := #[[], [.null, .bool true]] } = (.ok (.list 1 2), st') := ⟨_, rfl⟩
 
-/-- `addSuperClasses`: FIRST the super templates, depth first and in list order (`superLoop`: elements that are
-    not maps are skipped, the returned inits are collected in order), THEN the template's own properties
-    (`copyProps`) — so own properties overwrite inherited ones and a later super overwrites an earlier one. -/
-theorem addSuperClasses_order (f obj tr : Nat) :
-    addSuperClasses (f + 1) obj tr = (do
-      let tkvs ← getMap tr
-      let (err, initSuper) ← (match mapLookup tkvs (.str superName) with
-        | some (.list r l) => do superLoop (addSuperClasses f obj) (← getList r l) none []
-        | some _ => pure (some (plain "Property _super must be a list of super classes"), [])
-        | none => pure (none, []))
-      let initFn ← copyProps obj initSuper tkvs Val.null
-      pure (initFn, err)) := rfl
+/-- `addSuperClasses` (Go: addSuperClassesOnPath): a template already on the current path — it is its own super
+    template, directly or through others — adds nothing and sets the error variable; otherwise FIRST the super
+    templates, depth first and in list order, with this template on the path (`superLoop`: elements that are not maps
+    are skipped, the returned inits are collected in order), THEN the template's own properties (`copyProps`) — so
+    own properties overwrite inherited ones and a later super overwrites an earlier one. -/
+theorem addSuperClasses_order (f obj : Nat) (path : List Nat) (tr : Nat) :
+    addSuperClasses (f + 1) obj path tr =
+      if path.contains tr then pure (Val.null, some (plain "Super class hierarchy contains a cycle"))
+      else (do
+        let tkvs ← getMap tr
+        let (err, initSuper) ← (match mapLookup tkvs (.str superName) with
+          | some (.list r l) => do superLoop (addSuperClasses f obj (tr :: path)) (← getList r l) none []
+          | some _ => pure (some (plain "Property _super must be a list of super classes"), [])
+          | none => pure (none, []))
+        let initFn ← copyProps obj initSuper tkvs Val.null
+        pure (initFn, err)) := rfl
 
 /- Full statement (tested by the correspondence run, not proved): after `new(T)`, every key of `T` and of all
    super templates of `T`, transitively, is a key of the object; values: own template over supers, later super
@@ -352,7 +479,7 @@ theorem method_this_partial (obj : Nat) (initSuper : List Val) (k nv : Val) (id 
     (`runBuiltin_uses`). -/
 theorem init_once_with_args (runInit : Nat → List Val → M Val) (tr id : Nat) (rest : List Val) (st s1 : St)
     (r0 : Val) (err : Option Sig)
-    (hadd : runM (addSuperClasses 200 st.maps.size tr) { st with maps := st.maps.push [] } = (.ok (r0, err), s1))
+    (hadd : runM (addSuperClasses 200 st.maps.size [] tr) { st with maps := st.maps.push [] } = (.ok (r0, err), s1))
     (hinit : mapLookup (s1.entries st.maps.size) (.str initName) = some (.func id)) :
     runM (newB runInit (.map tr :: rest)) st =
       match runM (runInit id rest) s1 with
@@ -361,7 +488,7 @@ theorem init_once_with_args (runInit : Nat → List Val → M Val) (tr id : Nat)
   new_runs_init_once runInit tr id rest st s1 r0 err hadd hinit
 
 /-- non-vacuity: a template `{"init": f0}` — `new` binds init to the object and the hypotheses above hold -/
-example : ∃ r s1, runM (addSuperClasses 200 1 0)
+example : ∃ r s1, runM (addSuperClasses 200 1 [] 0)
     { maps := #[[(.str initName, .func 0)], []], funcs := #[⟨"", default, 0, none, none⟩] } = (.ok r, s1) ∧
     mapLookup (s1.entries 1) (.str initName) = some (.func 1) := ⟨_, _, rfl, rfl⟩
 
@@ -397,6 +524,62 @@ theorem add_insert_concat_model :
 example : ∃ st', runM (insertAt 1 2 (.bool true) 1) { lists := #[[], [.null, .null]] } = (.ok (.list 2 3), st') := ⟨_, rfl⟩
 example : ∃ r st', runM (concatB [.list 1 1, .list 1 1]) { lists := #[[], [.null]] } = (.ok (.list r 2), st') := ⟨_, _, rfl⟩
 
+/-! ### the list / finite-map yardstick (independent of slices) and where the code leaves it
+
+`Spec`: lists are values `List Val`, `add`/`del`/`concat` RETURN a list and change nothing else; maps are finite maps.
+The code's results refine `Spec` (`builtins_refine_spec`); what the code does to OTHER list values — the argument
+itself, earlier results — is Go slice aliasing and deviates from `Spec` (`add_del_alias_deviation`: witnesses).  The
+correspondence run compares with the code as it is; `fixes/C05-add-del-aliasing.patch` makes add / del copy. -/
+namespace Spec
+def len (l : List Val) : Nat := l.length
+def add (l : List Val) (v : Val) : List Val := l ++ [v]
+def insert (l : List Val) (v : Val) (i : Nat) : List Val := l.take i ++ [v] ++ l.drop i
+def del (l : List Val) (i : Nat) : List Val := l.eraseIdx i
+def concat (ls : List (List Val)) : List Val := ls.flatten
+def delKey (m : List (Val × Val)) (k : Val) : List (Val × Val) := m.filter fun p => !(keyEq p.1 k)
+end Spec
+
+/-- the RESULT of every list builtin is the `Spec` result (for slices with len ≤ capacity, valid indices) -/
+theorem builtins_refine_spec (r l : Nat) (st st' : St) (res : Val) (hr : r < st.lists.size) (hl : l ≤ (st.backing r).length) :
+    (∀ v, runM (appendVals r l [v]) st = (.ok res, st') →
+      ∃ r', res = .list r' (l + 1) ∧ st'.elems r' (l + 1) = Spec.add (st.elems r l) v) ∧
+    (∀ v i, i ≤ l → runM (insertAt r l v i) st = (.ok res, st') →
+      ∃ r', res = .list r' (l + 1) ∧ st'.elems r' (l + 1) = Spec.insert (st.elems r l) v i) ∧
+    (∀ i, i < l → ∃ s2, runM (delAt r l i) st = (.ok (.list r (l - 1)), s2) ∧ s2.elems r (l - 1) = Spec.del (st.elems r l) i) := by
+  refine ⟨?_, ?_, ?_⟩
+  · intro v h
+    obtain ⟨r', e1, e2, _⟩ := append_model r l [v] st st' res hr hl h
+    exact ⟨r', e1, e2⟩
+  · intro v i hi h
+    obtain ⟨r', e1, e2, _⟩ := insertAt_model r l i v st st' res hr hl hi h
+    exact ⟨r', e1, e2⟩
+  · intro i hi
+    obtain ⟨s2, e1, e2, _⟩ := delAt_model r l i st hr hl hi
+    exact ⟨s2, e1, e2⟩
+
+/-- … and a plain append changes no OTHER list value as long as no alias of the backing array is longer than the
+    appended slice ("no alias beyond len") — in particular never when it reallocates -/
+theorem append_refines_when_unaliased (r l : Nat) (v : Val) (st st' : St) (res : Val) (hr : r < st.lists.size)
+    (hl : l ≤ (st.backing r).length) (h : runM (appendVals r l [v]) st = (.ok res, st')) (r2 l2 : Nat)
+    (hal : r2 = r → l2 ≤ l) (hr2 : r2 < st.lists.size) : st'.elems r2 l2 = st.elems r2 l2 := by
+  obtain ⟨r', _, _, hoth, hcase⟩ := append_model r l [v] st st' res hr hl h
+  rcases hcase with ⟨e, _, hk⟩ | ⟨e, hk⟩
+  · by_cases h2 : r2 = r
+    · subst h2; exact hk l2 (hal rfl)
+    · simp only [St.elems, hoth r2 (by rw [e]; exact h2)]
+  · simp only [St.elems, hoth r2 (by rw [e]; exact Nat.ne_of_lt hr2)]
+
+/-- Deviations from `Spec` (the code as it is; `a` = the slice `.list 1 3` over an array of capacity 4 holding 1,2,3):
+    `b := add(a, 4); c := add(a, 5)` rewrites `b` to [1,2,3,5]; `add(a, 9, 0)` turns `a` itself into [9,1,2];
+    `del(a, 0)` turns `a` itself into [2,3,3]. -/
+theorem add_del_alias_deviation :
+    let st : St := { lists := #[[], [.num 1, .num 2, .num 3, .null]] }
+    (∃ s1 s2, runM (appendVals 1 3 [.num 4]) st = (.ok (.list 1 4), s1) ∧ runM (appendVals 1 3 [.num 5]) s1 = (.ok (.list 1 4), s2) ∧
+      s1.elems 1 4 = [.num 1, .num 2, .num 3, .num 4] ∧ s2.elems 1 4 = [.num 1, .num 2, .num 3, .num 5]) ∧
+    (∃ s1, runM (insertAt 1 3 (.num 9) 0) st = (.ok (.list 1 4), s1) ∧ s1.elems 1 3 = [.num 9, .num 1, .num 2]) ∧
+    (∃ s1, runM (delAt 1 3 0) st = (.ok (.list 1 2), s1) ∧ s1.elems 1 3 = [.num 2, .num 3, .num 3]) :=
+  ⟨⟨_, _, rfl, rfl, rfl, rfl⟩, ⟨_, rfl, rfl⟩, ⟨_, rfl, rfl⟩⟩
+
 /-- the loop over the "super" list, in list order: a map element is added to the object by `rec` (its init is
     appended to the collected list, its error replaces the error variable), any other element is skipped -/
 theorem superLoop_order (rec : Nat → M (Val × Option Sig)) (sr : Nat) (rest : List Val) (err : Option Sig) (acc : List Val) :
@@ -407,11 +590,13 @@ theorem superLoop_order (rec : Nat → M (Val × Option Sig)) (sr : Nat) (rest :
   intro a ha
   cases a <;> first | rfl | (exfalso; exact ha _ rfl)
 
-/-- Cycles in the super graph: every level of super templates costs one unit of fuel (`addSuperClasses_order` calls
-    `addSuperClasses f` for the supers of `addSuperClasses (f+1)`), and without fuel the outcome is `Sig.fuel` — `new`
-    starts with 200, so a template that reaches itself through "super" ends the model run as `HANG`.  (The Go code
-    recurses without bound on such a cyclic container: stack overflow.) -/
-theorem addSuperClasses_no_fuel (obj tr : Nat) : addSuperClasses 0 obj tr = throw Sig.fuel := rfl
+/-- Cycles in the super graph (fix f42b440): a template met again on the current path is cut — state unchanged, its
+    init slot is null, the error variable carries "cycle" (`new` then fails with it unless an init replaces the
+    error).  Fuel only bounds the depth of acyclic super chains (200 levels in `new`). -/
+theorem addSuperClasses_cycle (f obj : Nat) (path : List Nat) (tr : Nat) (st : St) (h : path.contains tr = true) :
+    runM (addSuperClasses (f + 1) obj path tr) st =
+      (.ok (Val.null, some (plain "Super class hierarchy contains a cycle")), st) := by
+  simp only [addSuperClasses, h, if_true, runM_pure]
 
 /-- `new` — all templates.  Start: the state `s0` in which the fresh, empty object `obj` has just been allocated
     (`newB`), slot 0 of the list store being the nil slice.  After a successful `addSuperClasses`:
@@ -422,20 +607,20 @@ theorem addSuperClasses_no_fuel (obj tr : Nat) : addSuperClasses 0 obj tr = thro
     (`own_property_wins` per copy step). -/
 theorem new_has_all_template_props (st : St) (tr : Nat) (res : Val × Option Sig) (s1 : St)
     (h0 : st.backing 0 = []) (hsz : 0 < st.lists.size)
-    (hadd : runM (addSuperClasses 200 st.maps.size tr) { st with maps := st.maps.push [] } = (.ok res, s1)) :
-    (∀ key, TKey { st with maps := st.maps.push [] } st.maps.size 200 tr key →
+    (hadd : runM (addSuperClasses 200 st.maps.size [] tr) { st with maps := st.maps.push [] } = (.ok res, s1)) :
+    (∀ key, TKey { st with maps := st.maps.push [] } st.maps.size 200 [] tr key →
       hasKey (s1.entries st.maps.size) (.str key) = true) ∧
     (∀ key v, tr ≠ st.maps.size → (Val.str key, v) ∈ ({ st with maps := st.maps.push [] } : St).entries tr → isFunc v = false →
       (∀ k w, (k, w) ∈ ({ st with maps := st.maps.push [] } : St).entries tr → keyEq k (.str key) = true → w = v) →
       mapLookup (s1.entries st.maps.size) (.str key) = some v) := by
   have hfill : Filling { st with maps := st.maps.push [] } st.maps.size { st with maps := st.maps.push [] } :=
     ⟨by simp, rfl, fun _ _ => rfl, listsKept_refl _ _⟩
-  have ar := addSuperClasses_keys { st with maps := st.maps.push [] } st.maps.size h0 hsz 200 tr _ s1 res hfill hadd
-  exact ⟨ar.keys, ar.ownWins⟩
+  have ar := addSuperClasses_keys { st with maps := st.maps.push [] } st.maps.size h0 hsz 200 [] tr _ s1 res hfill hadd
+  exact ⟨ar.keys, fun key v => ar.ownWins key v rfl⟩
 
 /-- non-vacuity: template 1 = {"super": [template 0]}, template 0 = {"k": null}; key "k" is reachable -/
-example : TKey { maps := #[[(.str [107], .null)], [(.str superName, .list 1 1)], []], lists := #[[], [.map 0]] } 2 200 1 [107] :=
-  TKey.sup 199 1 1 1 0 [107] (by decide) rfl (by decide) (by simp [St.elems, St.backing]) (TKey.own 198 0 [107] .null (by decide) (by simp [St.entries]))
+example : TKey { maps := #[[(.str [107], .null)], [(.str superName, .list 1 1)], []], lists := #[[], [.map 0]] } 2 200 [] 1 [107] :=
+  TKey.sup 199 [] 1 1 1 0 [107] rfl (by decide) rfl (by decide) (by simp [St.elems, St.backing]) (TKey.own 198 [1] 0 [107] .null rfl (by decide) (by simp [St.entries]))
 
 /-- A method invoked through the object reads `this` = the object cell (by reference): the function stored in the
     object is bound to `.map obj` (`method_this_partial`), `runFunction` builds its frame with `buildFrame`
@@ -444,7 +629,8 @@ example : TKey { maps := #[[(.str [107], .null)], [(.str superName, .list 1 1)],
     parameters are written after `this`, so such a parameter's value would replace it. -/
 theorem method_this (ev : Ecal.Parse.Node → M Val) (fr : FuncRec) (params : List (Option Ecal.Parse.Node)) (args : List Val)
     (st st' : St) (fvs obj : Nat) (hthis : fr.this = some (.map obj))
-    (hav : ParamsAvoid (bytesToString thisName) params) (hev : DefaultKeepsFrame ev st.scopes.size)
+    (hav : ParamsAvoid (bytesToString thisName) params)
+    (hev : DefaultPreserves ev params (NameInv st.scopes.size (bytesToString thisName) (.map obj)))
     (h : runM (buildFrame ev fr params args) st = (.ok fvs, st')) :
     st'.nearest fvs (bytesToString thisName) = some fvs ∧ st'.valueIn fvs (bytesToString thisName) = .map obj := by
   have := buildFrame_this ev fr params args st st' fvs (.map obj) hthis hav hev h
@@ -477,16 +663,11 @@ theorem init_once_with_args_and_supers (obj : Nat) (initSuper : List Val) (id : 
 
 theorem init_reads_super (ev : Ecal.Parse.Node → M Val) (fr : FuncRec) (params : List (Option Ecal.Parse.Node)) (args : List Val)
     (st st' : St) (fvs : Nat) (sl : Val) (hsuper : fr.super = some sl)
-    (hav : ParamsAvoid (bytesToString superName) params) (hev : DefaultKeepsFrame ev st.scopes.size)
+    (hav : ParamsAvoid (bytesToString superName) params)
+    (hev : DefaultPreserves ev params (NameInv st.scopes.size (bytesToString superName) sl))
     (h : runM (buildFrame ev fr params args) st = (.ok fvs, st')) :
     st'.nearest fvs (bytesToString superName) = some fvs ∧ st'.valueIn fvs (bytesToString superName) = sl := by
   have := buildFrame_super ev fr params args st st' fvs sl hsuper hav hev h
   exact ⟨this.2.2.2, this.2.2.1⟩
-
-/-- Any nesting (maps with number and string keys, lists with negative indices) on acyclic tree values: a
-    successful write through a flattened access path is read back through the same path. -/
-theorem read_after_write_paths (atoi : String → Option Int) (segs : List String) (v v' x : Ecal.Sc.Val)
-    (hne : segs ≠ []) (h : Ecal.Sc.setPath atoi v segs x = .ok v') : Ecal.Sc.getPath atoi v' segs = .ok x :=
-  Ecal.Sc.read_after_write atoi segs v v' x hne h
 
 end Ecal.Props.C05
